@@ -706,7 +706,7 @@ pub fn property() -> Property {
             Box::new(Sub {
                 name: "reference",
                 rule: "generated (H, LLR, limit): H 1..=8 x 1..=12 with arbitrary rows (degree-0 and degree-1 checks and isolated variables allowed), LLRs from the C01 catalogue, limits {0,1,2,3,6,20,60}; flooding::Decoder<A> and horizontal_layered::Decoder<A> with the checker's exact integer min-sum (wrapping i64) and free hash-term algebra (order-independent, separates routing/initialisation/staleness) against an own edge-map interpreter of the two textbook schedules: identical (verdict, word, iterations); for limit 0 on a non-codeword only verdict and count; non-trivial = >= 2 iterations executed and a variable of degree >= 2; inner = decoder runs compared",
-                cases: |t| t.pick(20_000, 1_000_000),
+                cases: |t| t.pick(300_000, 10_000_000),
                 strategy: case_strategy,
                 check: check_reference,
                 health: &[("iterations>=3", 0.30)],
@@ -714,7 +714,7 @@ pub fn property() -> Property {
             Box::new(Sub {
                 name: "trace",
                 rule: "Tracing<A> wrappers around all 24 built-in arithmetics in both generic decoders on C01-style inputs: per iteration exactly one check call per row whose source set is the row support (flooding: all checks before all variables, one variable call per column with the column support; layered: rows in order 0..r-1), one message per neighbour, call count = iterations x nodes, no call after the result; plus the C01 validity predicate; non-trivial = iterative path with limit >= 2",
-                cases: |t| t.pick(2_000, 100_000),
+                cases: |t| t.pick(20_000, 500_000),
                 strategy: |_| super::decgen::dec_case(6, 10),
                 check: check_trace,
                 health: &[],
@@ -722,7 +722,7 @@ pub fn property() -> Property {
             Box::new(Sub {
                 name: "exactness",
                 rule: "random bipartite forests (2..=12 variables, checks of degree 2..=4 attached to existing trees, occasionally a new tree; acyclicity asserted with the own girth oracle) plus a 3-variable single-check gadget with LLRs (1, 1, -0.5) that forces the run to the limit; channel LLRs uniform in +-4; Tracing<Phif64|Tanhf64|Phif32|Tanhf32> in both schedules for 2 x (number of nodes) iterations; recorded per-bit LLRs vs brute-force posteriors over all codewords within 16*eps*E*(1+e^M/2)*(1+|L|); non-trivial = a tree two checks deep",
-                cases: |t| t.pick(3_000, 150_000),
+                cases: |t| t.pick(40_000, 1_500_000),
                 strategy: forest_strategy,
                 check: check_forest,
                 health: &[("depth>=2", 0.50)],
